@@ -92,6 +92,32 @@ theorem unmatched_never_runs (K : ConnOps κ) (routes : List (Route κ)) (fuel :
     exact ⟨cx'', h2, h3⟩
   · left; exact hm
 
+/-- **The first matching route is the one chosen** (first evaluation of a connection): if the matcher sets of the routes before
+route `j` all answer `no` on the connection as it arrives and those of route `j` answer `yes`, the handlers of route `j` run on it —
+no matching route is passed over for a later one.  (The general form, for any pass of any round incl. routes skipped because
+they are behind the last matched route or asked for more data in a round with a prefetch, is `pass_runs_first_match`.) -/
+theorem first_matching_route_runs (K : ConnOps κ) (skipped : List (Route κ)) (r : Route κ) (rest : List (Route κ)) (fuel : Nat) (cx : κ)
+    (hno : ∀ k (hk : k < skipped.length), anyMatch skipped[k].sets (K.arm true cx) = .no)
+    (hyes : anyMatch r.sets (K.arm true cx) = .yes) :
+    Ev.run skipped.length (K.arm false (K.arm true cx)) ∈ (route K (skipped ++ r :: rest) (fuel + 1) cx).1 := by
+  have hp := pass_runs_first_match K skipped r rest 0 {} (K.arm true cx) []
+    (fun k hk => Or.inr (Or.inl (hno k hk))) (by simp) (by simp) hyes
+  simp only [Nat.zero_add] at hp
+  unfold route round
+  simp only [Bool.false_eq_true, ↓reduceIte]
+  cases hq : pass K (skipped ++ r :: rest) 0 {} (K.arm true cx) [] with
+  | stop tr' res => rw [hq] at hp; exact hp
+  | done rs' cx' tr' =>
+    rw [hq] at hp
+    simp only [outTrace] at hp
+    simp only []
+    split
+    · exact hp
+    · split
+      · obtain ⟨e, he⟩ := round_extends K (skipped ++ r :: rest) fuel { rs' with needMore := true } cx' tr'
+        rw [he]; exact List.mem_append_left _ hp
+      · exact hp
+
 /-! non-vacuity: a concrete two-route list on the layered connection model whose second route runs -/
 def demoRoutes : List (Route Src) :=
   [ { sets := [[fun cx => if cx.avail.length < 2 then .more else .no]], h := fun cx => ([], .next cx) },
